@@ -608,5 +608,75 @@ theorem resetChannel_det (t : Tab) (hv : t.Valid) (hr : t.StabReal) (q : Nat) (h
     rw [herm_of_hermitian _ hh]
     exact hg
 
+/-! ### the forced-outcome rule tolerates rounding -/
+
+/-- on the state of a tableau the two clipped probabilities are exactly (½, ½), (1, 0) or (0, 1) -/
+theorem probOf_tab_cases (t : Tab) (hv : t.Valid) (hr : t.StabReal) (q : Nat) (hq : q < t.n) :
+    (probOf (tabRho t.n t) (projZ t.n q false) = 1 / 2 ∧ probOf (tabRho t.n t) (projZ t.n q true) = 1 / 2) ∨
+    (probOf (tabRho t.n t) (projZ t.n q false) = 1 ∧ probOf (tabRho t.n t) (projZ t.n q true) = 0) ∨
+    (probOf (tabRho t.n t) (projZ t.n q false) = 0 ∧ probOf (tabRho t.n t) (projZ t.n q true) = 1) := by
+  rw [projZ_eq _ _ hq, projZ_eq _ _ hq]
+  cases hp : t.pivot q with
+  | some p =>
+    left
+    exact ⟨probOf_of_trace _ _ (1 / 2) (by norm_num) (by rw [prob_random t hv hr q p false hq hp]; norm_num),
+      probOf_of_trace _ _ (1 / 2) (by norm_num) (by rw [prob_random t hv hr q p true hq hp]; norm_num)⟩
+  | none =>
+    obtain ⟨ht1, ht0⟩ := prob_det t hv hr q hq hp
+    right
+    cases hrr : (t.measScratch q).r with
+    | false =>
+      rw [hrr] at ht1 ht0
+      left
+      exact ⟨probOf_of_trace _ _ 1 (by norm_num) (by rw [ht1]; norm_num),
+        probOf_of_trace _ _ 0 (by norm_num) (by rw [show (true : Bool) = !false from rfl, ht0]; norm_num)⟩
+    | true =>
+      rw [hrr] at ht1 ht0
+      right
+      exact ⟨probOf_of_trace _ _ 0 (by norm_num) (by rw [show (false : Bool) = !true from rfl, ht0]; norm_num),
+        probOf_of_trace _ _ 1 (by norm_num) (by rw [ht1]; norm_num)⟩
+
+open Classical in
+/-- **The `np.isclose` rule of the forced settings is stable**: if the exact probabilities are (½,½), (1,0) or (0,1) and
+    the computed ones are within `1e-8` of them, the forced-0 / forced-1 outcome is the one computed from the exact
+    values (this is what the repair of D39 buys; the comparison `> 0` of the old code was not stable). -/
+theorem outcomeOf_forced_robust (d : Det) (hd : d ≠ .prob) (p0 p1 q0 q1 : ℝ) (script : List Bool)
+    (hp : (p0 = 1 / 2 ∧ p1 = 1 / 2) ∨ (p0 = 1 ∧ p1 = 0) ∨ (p0 = 0 ∧ p1 = 1))
+    (h0 : |q0 - p0| ≤ 1 / 100000000) (h1 : |q1 - p1| ≤ 1 / 100000000) :
+    outcomeOf d q0 q1 script = outcomeOf d p0 p1 script := by
+  have key : ∀ p q : ℝ, (p = 0 ∨ p = 1 / 2 ∨ p = 1) → |q - p| ≤ 1 / 100000000 → (isclose0 q ↔ isclose0 p) := by
+    intro p q hp hq
+    unfold isclose0
+    rw [abs_le] at hq
+    rcases hp with rfl | rfl | rfl
+    · simp only [sub_zero] at hq
+      constructor
+      · intro _; norm_num
+      · intro _; exact abs_le.mpr hq
+    · constructor
+      · intro h; rw [abs_le] at h; exfalso; linarith [h.2, hq.1]
+      · intro h; rw [abs_le] at h; exfalso; linarith [h.2]
+    · constructor
+      · intro h; rw [abs_le] at h; exfalso; linarith [h.2, hq.1]
+      · intro h; rw [abs_le] at h; exfalso; linarith [h.2]
+  have c0 : p0 = 0 ∨ p0 = 1 / 2 ∨ p0 = 1 := by
+    rcases hp with h | h | h
+    · exact Or.inr (Or.inl h.1)
+    · exact Or.inr (Or.inr h.1)
+    · exact Or.inl h.1
+  have c1 : p1 = 0 ∨ p1 = 1 / 2 ∨ p1 = 1 := by
+    rcases hp with h | h | h
+    · exact Or.inr (Or.inl h.2)
+    · exact Or.inl h.2
+    · exact Or.inr (Or.inr h.2)
+  cases d with
+  | zero =>
+    show (decide (isclose0 q0), script) = (decide (isclose0 p0), script)
+    rw [decide_eq_decide.mpr (key p0 q0 c0 h0)]
+  | one =>
+    show (decide (¬ isclose0 q1), script) = (decide (¬ isclose0 p1), script)
+    rw [decide_eq_decide.mpr (not_congr (key p1 q1 c1 h1))]
+  | prob => exact absurd rfl hd
+
 end Hilbert
 end Graphiq
